@@ -105,6 +105,7 @@ if __name__ == "__main__":
         (lay(" "), ("name", "v")), (E, ("char", ")")), (E, ("char", ";")),
         (lay("\n    "), ("stmt", "println", E, "x")), (E, ("char", ")")), (E, ("char", ";")),
         (lay("\n    "), ("name", "assert")), (E, ("char", "!")), (E, ("char", "(")), (E, ("char", "!")), (E, ("name", "ok")), (E, ("char", ")")), (E, ("char", ";")),
+        (lay("\n    "), ("name", "assert")), (E, ("char", "!")), (E, ("char", "(")), (E, ("name", "a")), (lay(" "), ("char", ">")), (lay(" "), ("name", "b")), (E, ("char", ")")), (E, ("char", ";")),
         (lay("\n"), ("char", "}")),
     ]
     if len(sys.argv) > 1 and sys.argv[1] == "kv":
